@@ -9,7 +9,7 @@ ID = "C05"
 LEVEL = "exploration"
 LEVEL_TEXT = ("Complete enumeration of branch mnemonic x every displacement from -160 to +160 (thorough -400..+400) x "
               "form (forward label, backward label, literal target) x placement in the bank window (start, middle, target on "
-              "the last byte, branch on the last two bytes) x relocation (none, @= to ROM, @= to RAM with ROM/RAM target, RAM "
+              "the last byte, branch on the last two bytes) x relocation (none, @= to ROM, origin at file offset 0 reached after other output, @= to RAM with ROM/RAM target, RAM "
               "target from ROM) x LoROM/HiROM; each program assembled by the real assembler, whole output compared with the "
               "displacement formula or required to be rejected. One unit test checks one displacement of -5.")
 LEVEL_NOTE = ("Trusted: displacement formula target-(branch+2) on run addresses, mc/ref/bus.py for offsets. Cross-bank branches are "
@@ -27,7 +27,7 @@ BUSES = {"low_rom": (0x01, 0x8000, 0x10000), "high_rom": (0x41, 0x0000, 0x10000)
 
 def bound(tier):
     r = 400 if tier == "thorough" else 160
-    return f"7 supported + 2 unsupported branch mnemonics x d in [-{r},{r}] x 3 forms x 4 placements x 2 ROM relocations x 2 buses + RAM-space families"
+    return f"7 supported + 2 unsupported branch mnemonics x d in [-{r},{r}] x 3 forms x 4 placements x 3 origins/relocations x 2 buses + RAM-space families + same source alternately under both mappings in one process"
 
 
 def cases(tier, seed):
@@ -36,9 +36,10 @@ def cases(tier, seed):
         for mn in SUPPORTED + UNSUPPORTED:
             for form in ("forward", "backward", "literal"):
                 for place in ("start", "middle", "target-last", "branch-last"):
-                    for reloc in ("none", "rom"):
+                    for reloc in ("none", "rom", "org0"):
                         yield ("rom", busname, mn, form, place, reloc, r)
         for mn in SUPPORTED:
+            yield ("two-mappings", busname, mn)
             for fam in ("ram-run-rom-target", "rom-run-ram-target", "ram-run-ram-target", "ram-run-rom-literal"):
                 yield ("ram", busname, mn, fam)
 
@@ -62,6 +63,9 @@ def filler(n):
 def build(busname, mn, form, place, reloc, d):
     """Return (source, expected blocks or None if must be rejected) or None when the combination does not exist."""
     bank, wlo, whi = BUSES[busname]
+    if reloc == "org0":
+        # the branch lives in the bank stored at file offset 0, reached by a *= AFTER something was emitted elsewhere
+        bank = 0x00 if busname == "low_rom" else 0x40
     store_bank = bank
     run_bank = bank + 1 if reloc == "rom" else bank  # @= to another ROM bank: run addresses live there
     base = (run_bank << 16)
@@ -113,14 +117,17 @@ def build(busname, mn, form, place, reloc, d):
     if not (wlo <= start < whi):
         return None
     src = f"*=0x{(store_bank << 16) + start:06x}\n"
+    if reloc == "org0":
+        src = f"*=0x{((store_bank + 2) << 16) + wlo + 0x100:06x}\n.db 0x55, 0x56\n" + src
     if reloc == "rom":
         src += f"@=0x{base + start:06x}\n"
     src += body
     ref = refbus.BUILTIN[busname]()
     off = ref.phys((store_bank << 16) + start)
+    pre = [(ref.phys(((store_bank + 2) << 16) + wlo + 0x100), b"\x55\x56")] if reloc == "org0" else []
     if mn in SUPPORTED and -128 <= d <= 127:
         op = isa.BY_MNEMONIC[mn]["rel"]
-        return src, [(off, exp_data(bytes([op, d & 0xFF])))]
+        return src, pre + [(off, exp_data(bytes([op, d & 0xFF])))]
     return src, None
 
 
@@ -202,7 +209,31 @@ def run_ram(busname, mn, fam):
     return {"evals": n, "nt_count": n, "outcome": sorted(outcomes), "violations": viol[:6], "example": example}
 
 
+def run_two_mappings(first_bus, mn):
+    """The same sources (targets in banks that exist under BOTH built-in mappings: C0-CF) assembled alternately under
+    the two mappings in one process: each result must be the one that mapping gives on its own."""
+    viol = []
+    n = 0
+    order = [first_bus, "high_rom" if first_bus == "low_rom" else "low_rom", first_bus]
+    op = isa.BY_MNEMONIC[mn]["rel"]
+    for addr in (0xC18100, 0xC1FF00, 0xC28110):
+        for d in (-2, 0, 5, 127, -128):
+            tgt = addr + 2 + d
+            src = f"*=0x{addr:06x}\n{mn} 0x{tgt:06x}\n"
+            for busname in order:
+                ref = refbus.BUILTIN[busname]()
+                out = impl.assemble(src, rom=busname)
+                n += 1
+                exp = [(ref.phys(addr), bytes([op, d & 0xFF]))]
+                if not out.accepted or out.blocks != exp:
+                    viol.append({"key": "branch:result-depends-on-earlier-assembly-under-another-mapping",
+                                 "msg": f"{busname} (sequence {order}): expected {exp[0][0]:06x}:{exp[0][1].hex()} got {out.brief()} :: {src!r}"})
+    return {"evals": n, "nt_count": n, "outcome": "two-mappings-ok" if not viol else "TWO-MAPPINGS-DIFFER", "violations": viol[:6]}
+
+
 def run_case(case):
+    if case[0] == "two-mappings":
+        return run_two_mappings(case[1], case[2])
     if case[0] == "rom":
         return run_rom(*case[1:])
     return run_ram(*case[1:])
